@@ -40,6 +40,10 @@ FUNCS = [
     ("routing_param_disambiguated_field", "gapic/schema/wrappers.py", "RoutingParameter.disambiguated_field", [("field", "Str")]),
     ("client_method_name", "gapic/schema/wrappers.py", "Method.client_method_name", [("name", "Str"), ("is_internal", "Bool")]),
     ("sort_lines", "gapic/utils/lines.py", "sort_lines", []),
+    # `subst`: sub-expressions (by source text) that become parameters; `ret`: the return type of an un-annotated property
+    ("metadata_doc", "gapic/schema/metadata.py", "Metadata.doc", [],
+     {"subst": {"self.documentation.leading_comments": ("leading", "Str"), "self.documentation.trailing_comments": ("trailing", "Str"),
+                "self.documentation.leading_detached_comments": ("detached", "ListStr")}, "ret": "Str"}),
 ]
 
 TABLES = {"RESERVED_NAMES": "reservedNames", "kwlist": "pyKeywords"}       # module-level tables available as Pinned.<name> : List String
@@ -83,8 +87,9 @@ def lean_repl(j) -> str:
 
 
 class Tr:
-    def __init__(self, tree, fn, self_attrs, known):
+    def __init__(self, tree, fn, self_attrs, known, subst=None):
         self.tree, self.fn, self.known = tree, fn, known
+        self.subst = dict(subst or {})      # source text of a sub-expression -> (parameter name, type)
         self.consts = _module_consts(tree)
         self.self_attrs = dict(self_attrs)
         self.env = {}
@@ -133,6 +138,10 @@ class Tr:
 
     # ---- expressions: (lean text, type)
     def expr(self, e):
+        if self.subst and not isinstance(e, ast.Constant):
+            src = ast.unparse(e)
+            if src in self.subst:
+                return self.subst[src]
         if isinstance(e, ast.Constant):
             v = e.value
             if isinstance(v, bool): return ("true" if v else "false"), "Bool"
@@ -384,11 +393,12 @@ class Tr:
         raise Refused(f"statement {type(s).__name__}")
 
 
-def translate_one(key, rel, qual, self_attrs, known):
+def translate_one(key, rel, qual, self_attrs, known, opts=None):
+    opts = opts or {}
     src = T._src(rel)
     tree = ast.parse(src)
     fn = _find_func(tree, qual)
-    tr = Tr(tree, fn, self_attrs, known)
+    tr = Tr(tree, fn, self_attrs, known, opts.get("subst"))
     params = []
     a = fn.args
     if a.vararg or a.kwarg or a.kwonlyargs or a.posonlyargs:
@@ -400,9 +410,9 @@ def translate_one(key, rel, qual, self_attrs, known):
         ty = tr.ann(p.annotation)
         params.append((p.arg, ty))
         tr.env[p.arg] = (p.arg, ty)
-    ret = tr.ann(fn.returns)
+    ret = opts["ret"] if (fn.returns is None and opts.get("ret")) else tr.ann(fn.returns)
     body = tr.block(fn.body, ret)
-    allp = [(f"self_{n}", t) for n, t in self_attrs] + params
+    allp = [(f"self_{n}", t) for n, t in self_attrs] + list((opts.get("subst") or {}).values()) + params
     sig = " ".join(f"({n} : {LEAN_TY[t]})" for n, t in allp)
     text = f"def {key} {sig} : {LEAN_TY[ret]} :=\n  {body}"
     return {"lean": text, "params": allp, "ret": ret, "file": rel, "qual": qual, "first_line": fn.lineno}
@@ -410,11 +420,13 @@ def translate_one(key, rel, qual, self_attrs, known):
 
 def translate_functions():
     out, known = {}, {}
-    for key, rel, qual, self_attrs in FUNCS:
+    for entry in FUNCS:
+        key, rel, qual, self_attrs = entry[:4]
+        opts = entry[4] if len(entry) > 4 else None
         try:
-            r = translate_one(key, rel, qual, self_attrs, known)
+            r = translate_one(key, rel, qual, self_attrs, known, opts)
             out[key] = r
-            if not self_attrs:
+            if not self_attrs and not opts:
                 known[qual.split(".")[-1]] = {"params": r["params"], "ret": r["ret"], "lean": key}
         except Refused as ex:
             out[key] = {"error": str(ex), "file": rel, "qual": qual}
